@@ -51,6 +51,15 @@ def gen(args):
             if np.linalg.matrix_rank(A) == N:     # input conditioning only
                 break
         X = (A if axis == 0 else A.T).astype(float)
+        if name == "VoronoiFPS" and di % 2 == 1:
+            # clustered points of different norms in two or three dimensions: the pruned update really skips cells here
+            while True:
+                dlow = int(rng.integers(2, 4))
+                cen = rng.integers(-20, 21, size=(3, dlow))
+                P2 = cen[rng.integers(0, 3, size=N)] + rng.integers(-2, 3, size=(N, dlow))
+                if len(np.unique(P2, axis=0)) == N:
+                    break
+            X = P2.astype(float)
         y = rng.integers(-4, 5, size=X.shape[0]).astype(float) if (needs_y or di % 2 == 0) else None
         exact = name in ("fFPS", "sFPS", "VoronoiFPS", "sPCovFPS")
         unit = 16 if name == "sPCovFPS" else (2 if exact else (10000 if family == "fps" else 1000000))
@@ -162,6 +171,12 @@ def run(tier):
         chunk = [list(x) for x in s12[vi::len(VARIANTS)]]
         if chunk:
             jobs.append((vi, core.seed() * 100 + 50 + vi, chunk, 12))
+    # the Voronoi variants keep per-point cell state across warm starts: more (clustered) data sets and longer schedules for them
+    longs = [list(x) for x in s12 if len(x) >= 3][: (8 if quick else 60)]
+    for vi in (4, 5):
+        for dj in ((1, 3, 5) if quick else range(1, 40, 2)):
+            if longs:
+                jobs.append((vi, core.seed() * 100 + 60 + dj, longs, 12))
     parts = [(w, jobs[w::core.NCPU], core.seed()) for w in range(core.NCPU)]
     with mp.Pool(core.NCPU) as pool:
         cases = [c for part in pool.map(gen, parts) for c in part]
